@@ -1,7 +1,14 @@
 import GldapModel.Props.Filter
+import GldapModel.Props.FilterSession
 #print axioms Gldap.Filter.decompile_encode
 #print axioms Gldap.C01_filter_roundtrip
 #print axioms Gldap.filterDNAttrsDecoded_current
 #print axioms Gldap.C01_current_filter
 #print axioms Gldap.C01_filter_counterexample_prefix
 #print axioms Gldap.C01_filter_counterexample_prefix_request
+#print axioms Gldap.Filter.unescape_escape
+#print axioms Gldap.C01_filter_value_faithful
+#print axioms Gldap.sendable_current
+#print axioms Gldap.session_requests_filter
+#print axioms Gldap.C03_filter_criterion
+#print axioms Gldap.C20_wire_add_then_read_filter
